@@ -405,6 +405,111 @@ fn record(c: &Cfg, o: &Out, out: &mut Partial) {
     }
 }
 
+/// The library's own `Testnet::new(count)` (blocking builder + `bootstrapped()` per node) run
+/// inside the simulated world: when it returns every node has joined; afterwards the first node
+/// knows everybody, the knows-graph is strongly connected and a lookup from any node asks every
+/// other node.
+fn testnet(count: usize, out: &mut Partial) {
+    let mut w = World::new(Chooser::default_run());
+    let mut problems: Vec<(String, String)> = vec![];
+    out.add("executions", 1);
+    out.add("testnets_built", 1);
+    let replay = json!({"part": "testnet", "count": count});
+    let (nodes, bootstrap) = match w.add_testnet(count, 7100, 120 * SEC) {
+        Ok(x) => x,
+        Err(e) => {
+            out.violation(format!("testnet/constructor/n{count}"), e, replay);
+            return;
+        }
+    };
+    let addrs: Vec<SocketAddrV4> = nodes.iter().map(|n| w.node_addr(*n)).collect();
+    if bootstrap != vec![addrs[0].to_string()] {
+        problems.push(("testnet/bootstrap-list".into(), format!("Testnet.bootstrap = {bootstrap:?}, the first node listens on {}", addrs[0])));
+    }
+    // "This will block until all nodes are bootstrapped"
+    for (j, n) in nodes.iter().enumerate().skip(1) {
+        if table_ids(&w, *n).is_empty() {
+            problems.push(("testnet/returned-before-bootstrapped".into(), format!("Testnet::new({count}) returned while node #{j} has an empty routing table")));
+            break;
+        }
+    }
+    w.run_for(5 * SEC);
+    if count > 1 {
+        let t0: BTreeSet<SocketAddrV4> = w.snapshot(nodes[0]).core.routing_table.buckets.iter().flat_map(|(_, b)| b.iter().map(|n| n.address)).collect();
+        if let Some(j) = (1..count).find(|j| !t0.contains(&addrs[*j])) {
+            problems.push(("testnet/first-node-does-not-know-joiner".into(), format!("the first node's table lacks node #{j} ({} entries)", t0.len())));
+        }
+        let adj: Vec<Vec<usize>> = nodes
+            .iter()
+            .map(|n| {
+                let t: BTreeSet<SocketAddrV4> = w.snapshot(*n).core.routing_table.buckets.iter().flat_map(|(_, b)| b.iter().map(|n| n.address)).collect();
+                (0..count).filter(|k| t.contains(&addrs[*k])).collect()
+            })
+            .collect();
+        let reach = |adj: &Vec<Vec<usize>>| -> usize {
+            let mut seen = vec![false; count];
+            let mut stack = vec![0usize];
+            seen[0] = true;
+            while let Some(x) = stack.pop() {
+                for y in &adj[x] {
+                    if !seen[*y] {
+                        seen[*y] = true;
+                        stack.push(*y);
+                    }
+                }
+            }
+            seen.iter().filter(|b| **b).count()
+        };
+        let radj: Vec<Vec<usize>> = (0..count).map(|k| (0..count).filter(|i| adj[*i].contains(&k)).collect()).collect();
+        if reach(&adj) != count || reach(&radj) != count {
+            problems.push(("testnet/knows-graph-not-strongly-connected".into(), format!("adjacency {adj:?}")));
+        }
+        if count <= 20 {
+            for (j, n) in nodes.iter().enumerate() {
+                let target: Id20 = [0x91 ^ (j as u8); 20];
+                let log_start = w.log.len();
+                let c = w.call_find_node(*n, target.into());
+                let h = w.now + 60 * SEC;
+                w.run_calls(&[c], h);
+                let mut asked: BTreeSet<SocketAddrV4> = BTreeSet::new();
+                for e in &w.log[log_start..] {
+                    if let LogEntry::Sent { dgram, .. } = e {
+                        if dgram.from_node == Some(*n) {
+                            if let Some(k) = Krpc::parse(&dgram.bytes) {
+                                if k.is_query() && k.query_target() == Some(target) {
+                                    asked.insert(dgram.to);
+                                }
+                            }
+                        }
+                    }
+                }
+                if let Some(k) = (0..count).find(|k| *k != j && !asked.contains(&addrs[*k])) {
+                    problems.push(("testnet/lookup-misses-a-server".into(), format!("a find_node started on node #{j} did not ask node #{k} (asked {})", asked.len())));
+                    break;
+                }
+            }
+        }
+    }
+    for j in 0..nodes.len() {
+        for (k, d) in w.api_view_mismatches(nodes[j]) {
+            problems.push((k, format!("testnet node #{j}: {d}")));
+        }
+    }
+    if let Some(dead) = w.any_actor_panicked() {
+        problems.push(("actor-died".into(), format!("an actor thread died: node {dead} {}", w.death_reason(dead))));
+    }
+    out.add("transitions", w.steps);
+    if problems.is_empty() {
+        out.add("clean_testnets", 1);
+    }
+    let mut seen = BTreeSet::new();
+    for (k, d) in problems {
+        if seen.insert(k.clone()) {
+            out.violation(format!("{k}/n{count}"), format!("Testnet::new({count}): {d}"), replay.clone());
+        }
+    }
+}
+
 fn run(tier: Tier, shard: usize, nshards: usize, _seed: u64) -> Partial {
     let mut out = Partial::default();
     let mut cfgs: Vec<Cfg> = vec![];
@@ -456,6 +561,14 @@ fn run(tier: Tier, shard: usize, nshards: usize, _seed: u64) -> Partial {
             }
         }
     }
+    // the library's own Testnet constructor
+    let sizes: &[usize] = if tier.is_quick() { &[1, 2, 3, 5, 10] } else { &[1, 2, 3, 4, 5, 8, 10, 20, 30] };
+    for &n in sizes {
+        unit += 1;
+        if unit % nshards == shard {
+            testnet(n, &mut out);
+        }
+    }
     out.witness("networks joined cleanly", out.count("clean_runs") > 0);
     out.sample(json!({"s": 3, "join_order": 4, "timing": "after-1-event", "bootstrap_list": "first-node+dead", "plan": "public"}));
     out
@@ -463,6 +576,11 @@ fn run(tier: Tier, shard: usize, nshards: usize, _seed: u64) -> Partial {
 
 fn replay(v: &Value) -> Result<Option<Violation>, String> {
     let g = |k: &str| v.get(k).and_then(|x| x.as_u64()).map(|x| x as usize);
+    if v.get("part").and_then(|p| p.as_str()) == Some("testnet") {
+        let mut out = Partial::default();
+        testnet(g("count").ok_or("count")?, &mut out);
+        return Ok(out.violations.into_iter().next());
+    }
     if v.get("part").and_then(|p| p.as_str()) == Some("slow-links") {
         let mut out = Partial::default();
         slow_links(g("s").ok_or("s")?, v.get("public").and_then(|x| x.as_bool()).unwrap_or(true), g("one_way_ms").ok_or("one_way_ms")? as u64, &mut out);
